@@ -1,6 +1,7 @@
 #!/usr/bin/env python3
 """Binding demonstration (a) for C09: corrupt single recorded fields of an accepted `qxv sm` trace and show that
-the monitor of spec/StreamMgmtTrace.tla reports each.  usage: python3 lib/c09_corrupt.py <accepted-trace.ndjson>"""
+the monitor of spec/StreamMgmtTrace.tla reports each.
+usage: python3 lib/c09_corrupt.py [accepted-trace.ndjson]   (default: record lib/props/C09.sample.ndjson with `qxv sm` first)"""
 import copy
 import json
 import os
@@ -59,12 +60,17 @@ def corruptions(lines):
 
 
 def main():
-    lines = vf.read_ndjson(sys.argv[1])
-    base = vf.tlc_trace("StreamMgmtTrace.tla", "StreamMgmtTrace.cfg", sys.argv[1], tag="c09-corrupt-base")
-    print("accepted trace:", base["cases"], "executions,", len(base["viol"]), "violations,", base["ndiv"], "diverged")
-    ok = not base["viol"]
     outdir = os.path.join(vf.OUT, "C09-corrupt")
     os.makedirs(outdir, exist_ok=True)
+    if len(sys.argv) > 1:
+        src = sys.argv[1]
+    else:
+        src = os.path.join(outdir, "base.ndjson")
+        vf.qxv("sm", src, in_path=os.path.join(vf.VERIF, "lib", "props", "C09.sample.ndjson"))
+    lines = vf.read_ndjson(src)
+    base = vf.tlc_trace("StreamMgmtTrace.tla", "StreamMgmtTrace.cfg", src, tag="c09-corrupt-base")
+    print("accepted trace:", base["cases"], "executions,", len(base["viol"]), "violations,", base["ndiv"], "diverged")
+    ok = not base["viol"]
     for n, (what, lines2, expect) in enumerate(corruptions(lines), 1):
         p = os.path.join(outdir, f"c{n}.ndjson")
         vf.write_ndjson(p, lines2)
